@@ -25,12 +25,16 @@ def _rule_schema():
 # ------------------------------------------------------------------ the structural invariant of the statement
 @spec
 def rank(t):
-    """ordering class of a rule type, from the statement: @import < @namespace < style/media/page/font-face; -1: unconstrained
-    (comments, unknown rules and the cssutils-only @variables rule, which the statement does not order)"""
+    """ordering class of a rule type: @import < @namespace < @variables < style/media/page/font-face; -1: unconstrained (comments,
+    unknown rules).  The statement names @import, @namespace and the style-like rules; the cssutils-only @variables rule takes its
+    place from the statement's last sentence (the parser drops an @variables rule that follows a style rule, so any other order
+    loses a rule on reparse)."""
     if t == IMPORT:
         return 1
     if t == NAMESPACE:
         return 2
+    if t == VARIABLES:
+        return 3
     if t == STYLE or t == MEDIA or t == PAGE or t == FONT_FACE:
         return 4
     return -1
